@@ -8,6 +8,8 @@ changes the generated file and one of these lemmas stops type-checking.
 import SnowModel.Core.Stop
 import SnowModel.Generated.StopApi
 import SnowModel.Generated.StopRuntime
+import SnowModel.Generated.StopTables
+import SnowModel.Core.StopTables
 
 namespace SnowModel.Props.C07Bridge
 open SnowModel.Stop
@@ -167,5 +169,60 @@ theorem reject_shape :
     Gen.StopRuntime.stopTableName = "stop_table_name = parent_application.stopping_tablename" ∧
     Gen.StopRuntime.rejectTest = "stop_table_name is not None and stop_table_name not in parse_result.tables" ∧
     Gen.StopRuntime.rejectRaises = "DataGenNameError" := ⟨rfl, rfl, rfl⟩
+
+/-! #### parse_recipe_yaml.py: where `parse_result.tables` comes from -/
+
+/-- `parse_recipe` parses the file and then the recipe's own statement list — and nothing else that
+    could register a table (= `StopTables.parseTables`: `parseL` over the statements only) -/
+theorem parse_recipe_body :
+    Gen.StopTables.parseRecipeTry =
+      ["objects = parse_file(stream, context)", "statements = parse_statement_list(objects, context)"] ∧
+    Gen.StopTables.parseRecipeCalls =
+      ["ParseContext", "ParseResult", "build_update_recipe", "context.table_infos.items",
+       "exc.DataGenSyntaxError", "getattr", "name.startswith", "parse_file", "parse_statement_list"] :=
+  ⟨rfl, rfl⟩
+
+/-- `tables` = the registered names that are not hidden (= `StopTables.visible`), passed on unchanged -/
+theorem tables_filter :
+    Gen.StopTables.tablesSource = "context.table_infos.items()" ∧
+    Gen.StopTables.tablesFilter = "not name.startswith('__')" ∧
+    Gen.StopTables.tablesKey = "name: value" ∧
+    Gen.StopTables.resultTablesArg = "tables" ∧
+    StopTables.visible "__x" = false ∧ StopTables.visible "_x" = true ∧ StopTables.visible "" = true :=
+  ⟨rfl, rfl, rfl, rfl, by decide, by decide, by decide⟩
+
+/-- Every path to `register_template` starts at `parse_statement_list` called by `parse_recipe` (or at
+    a field value of something parsed on such a path); macros are expanded only by `parse_inclusions`,
+    i.e. only when a parsed template or an expanded macro includes them (= the recursion structure of
+    `StopTables.parseT / parseL / parseIncs / parseM`). -/
+theorem registration_call_graph :
+    Gen.StopTables.registrationCallGraph =
+      ["register_template <- parse_object_template",
+       "parse_object_template <- parse_field_value,parse_statement_list",
+       "include_macro <- parse_inclusions",
+       "parse_inclusions <- include_macro,parse_object_template",
+       "parse_statement_list <- parse_friends,parse_recipe",
+       "parse_friends <- include_macro,parse_object_template",
+       "parse_fields <- include_macro,parse_object_template",
+       "parse_field <- parse_fields",
+       "parse_field_value <- parse_count_expression,parse_field,parse_field_value,parse_for_each_variable_definition,parse_structured_value_args,parse_variable_definition",
+       "parse_structured_value <- parse_field_value",
+       "parse_structured_value_args <- parse_structured_value"] ∧
+    Gen.StopTables.tableInfosWriters = ["__init__", "register_template"] ∧
+    Gen.StopTables.macrosWriters = ["parse_top_level_elements:context.macros.update"] := ⟨rfl, rfl, rfl⟩
+
+/-- `register_template` keys `table_infos` by the template's table name (= `StopTables.register`);
+    a template registers after its inclusions, fields and friends (= `parseT`); a macro expands its
+    inclusions, then its fields, then its friends (= `parseM`) -/
+theorem registration_order :
+    Gen.StopTables.registerTemplateBody =
+      ["table_info = self.table_infos.get(template.tablename, None) or TableInfo(template.tablename)",
+       "self.table_infos[template.tablename] = table_info", "table_info.register(template)"] ∧
+    Gen.StopTables.objectTemplateOrder =
+      ["parse_inclusions", "parse_fields", "parse_friends", "context.register_template"] ∧
+    Gen.StopTables.includeMacroExpansion =
+      ["parse_inclusions(macro, fields, friends, context, parent_macros + (name,))",
+       "fields.extend(parse_fields(parsed_macro.fields or {}, context))",
+       "friends.extend(parse_friends(parsed_macro.friends or [], context))"] := ⟨rfl, rfl, rfl⟩
 
 end SnowModel.Props.C07Bridge
